@@ -276,7 +276,11 @@ def direct_oracle(spec, c):
                 # staging bookkeeping of this oracle differs from the engine's: judge with the engine's number, say so
                 st["initial_mismatch"] = st.get("initial_mismatch", 0) + 1
                 initial = eng["initial"]
-            d = si - p["si"] if not notin else -999.0
+            target = p["si"]
+            if p.get("gas") and eng is not None:
+                target = eng["si_t"]      # the engine adds log10(fugacity coefficient) to the requested log10(pressure)
+                st["gas_phase_entries"] = st.get("gas_phase_entries", 0) + 1
+            d = si - target if not notin else -999.0
             key = ("alt:" if "alt" in p else "") + p.get("opt", "plain") + (":force" if p.get("force_equality") else "")
             key += ":" + ("notin" if notin else "present" if moles > 0 else "absent")
             st["phase_states"][key] = st["phase_states"].get(key, 0) + 1
@@ -379,7 +383,7 @@ def direct_oracle(spec, c):
                             if abs(dm - em) > 1e-12 * max(abs(em), 1e-30) and not (em == 0 and dm == 0) and not (neg and em < 0 and dm == 0):
                                 problems.append(f"DUMP: EQUILIBRIUM_PHASES_RAW 1 holds {dm!r} mol of {p['name']} but the last calculation ended with {em!r}")
                             ks = f"component[{p['name']}]/si"
-                            if ks in fl and abs(float(fl[ks]) - p["si"]) > 1e-12:
+                            if ks in fl and abs(float(fl[ks]) - p["si"]) > 1e-12 and not p.get("gas"):
                                 problems.append(f"DUMP: target SI of {p['name']} is {fl[ks]} but {p['si']} was requested")
         except Exception as ex:   # the dump parser is not what is judged here
             st["dump_parse_error"] = str(ex)[:100]
@@ -597,7 +601,7 @@ def run(ctx):
         hist["calcs"] += st["calcs"]
         for k, v in st["phase_states"].items():
             hist["phase_states"][k] = hist["phase_states"].get(k, 0) + v
-        for k in ("ex", "su", "ss_ideal", "ss_binary", "dump_checked", "initial_mismatch", "calcs_after_redefinition", "calcs_in_later_run"):
+        for k in ("ex", "su", "ss_ideal", "ss_binary", "dump_checked", "initial_mismatch", "calcs_after_redefinition", "calcs_in_later_run", "gas_phase_entries"):
             hist[k] = hist.get(k, 0) + st.get(k, 0)
         hist["sys_vs_tot_max_rel"] = max(hist.get("sys_vs_tot_max_rel", 0.0), st.get("sys_vs_tot_max_rel", 0.0))
         if "local minimum" in c.get("warn", ""):
